@@ -89,18 +89,18 @@ def generate(seed, mode):
     lookup_only = w.random() < 0.25
     nkeys = w.randint(2, 4)
     keys = [{'e': w.randrange(len(ENTRIES)), 'req': [w.randrange(3) for _ in range(w.choice([1, 1, 2]))], 'n': w.randrange(2),
-             'p': w.choice([0, 0, 1])} for _ in range(nkeys)]
+             'p': w.choice([0, 0, 0, 1, 2])} for _ in range(nkeys)]
     if w.random() < 0.5 and nkeys > 1:
         keys[1] = dict(keys[0])           # two threads asking the identical key: overlapping first lookups
     threads = []
     for t in range(nlook):
         threads.append({'kind': 'lookup', 'ops': [{'key': o.randrange(nkeys)} for _ in range(o.randint(2, 6))]})
     pre = [{'m': o.choice(['reg', 'sub', 'regbase']), 'req': [o.randrange(3) for _ in range(o.choice([1, 1, 2]))], 'n': o.randrange(2),
-            'v': o.randrange(4), 'p': 0} for _ in range(o.randint(0, 4))]
+            'v': o.randrange(4), 'p': o.choice([0, 0, 1, 2])} for _ in range(o.randint(0, 5))]
     if not lookup_only:
         threads.append({'kind': 'mutator', 'ops': [{'m': o.choice(['reg', 'reg', 'unreg', 'sub', 'unsub', 'regbase', 'rbases', 'irebase', 'cdecl']),
                                                     'req': [o.randrange(3) for _ in range(o.choice([1, 1, 2]))], 'n': o.randrange(2),
-                                                    'v': o.randrange(4), 'p': o.choice([0, 1, 1])} for _ in range(o.randint(1, 5))]})
+                                                    'v': o.randrange(4), 'p': o.choice([0, 1, 1, 2, 2])} for _ in range(o.randint(1, 5))]})
     for t in threads:
         if t['kind'] == 'mutator':
             for j, m in enumerate(t['ops']):
@@ -380,9 +380,9 @@ def execute_reenter(program, ctx, mode):
                 return reg.subscribers((ob,), P0)
             req = Lazy([spec]) if (lazy and not inner) else [spec]
             if e == 'lookup':
-                return reg.lookup(req, P0, '')
+                return reg.lookup(req, P0, '', 'dflt')
             if e == 'lookup1':
-                return reg.lookup1(spec, P0, '')
+                return reg.lookup1(spec, P0, '', 'dflt')
             if e == 'lookupAll':
                 return sorted(reg.lookupAll(req, P0), key=lambda kv: kv[0])
             if e == 'names':
@@ -814,7 +814,8 @@ def execute_threads(program, ctx, mode):
     R2 = InterfaceClass('TR2', (Interface,), {}, __module__='zisim.t')
     P0 = InterfaceClass('TP0', (Interface,), {}, __module__='zisim.t')
     P1 = InterfaceClass('TP1', (P0,), {}, __module__='zisim.t')      # first registered by the mutator, if at all
-    PS = [P0, P1]
+    P2 = InterfaceClass('TP2', (P0,), {}, __module__='zisim.t')      # a third: the list of extending interfaces gets long
+    PS = [P0, P1, P2]                                                # enough for an in-place edit to make a reader skip one
     RS = [R0, R1, R2]
 
     class K:
